@@ -57,6 +57,10 @@ class CallGen:
         self.n += 1
         # registered names are case sensitive C identifiers
         name = self.ch.choice(["vf", "vF", "satU", "lowBits"], "fname") + f"{self.uid}_{self.n}"
+        builtin_like = None
+        if ch.chance(1, 10, "builtin-name"):
+            # a routine registered under a name the plugin also knows as a macro / helper: the registry comes first
+            builtin_like = ch.choice(["get_npc", "STORE_SLOT_CANCELLED", "WRITE_PRED", "WRITE_REG"], "builtin")
         kind = ch.weighted([("ret_param", 4), ("ret_cast", 3), ("ret_bin", 3), ("local", 3), ("branch", 3), ("postinc", 4),
                             ("nested", 4 if self.value_funcs() else 0), ("loop", 2), ("void_write", 2), ("pc_read", 1), ("ext_write_ret", 3),
                             ("ret_const", 2), ("mixed_sign", 5)], "fkind")
@@ -192,6 +196,9 @@ class CallGen:
                     body = [("return", ("call", g["name"], args))]
             R = self.pick(ALL_T, lambda r: not (A and f5b(cref.promote(E) if form == 2 and Rg[1] >= 32 else E, r)), "R")
             params = [(P, "p")]
+        if builtin_like and builtin_like not in self.funcs and R is not None and all(pt[0] != "ext" for pt, _ in params) \
+                and kind not in ("local", "branch", "loop", "postinc", "nested"):
+            name = builtin_like
         f = {"name": name, "ret": R, "params": params, "body": body, "kind": kind,
              "const": [pt[0] != "ext" and ch.chance(1, 4, "const") for pt, _ in params]}
         self.funcs[name] = f
